@@ -992,3 +992,6 @@ func (w *World) TraceState() string {
 	s += fmt.Sprintf("L0max=%d", MaxL0(w.ReplicaDir))
 	return s
 }
+
+// LedgerDB returns the harness's read connection to the source database.
+func (w *World) LedgerDB() *sql.DB { return w.ledgerDB }
